@@ -165,7 +165,39 @@ def breaks():
         yield ('hr-not', [line], '<p>%s</p>\n' % esc(line), dict(line=line), False)
 
 
-FAMILIES = dict(fence=fences, atx=atx, setext=setext, indented=indented, html=html_blocks, table=tables, para=paragraphs, hr=breaks)
+# ------------------------------------------------------------------------------------------- list markers followed by a tab (2.2, 5.2)
+def list_tabs():
+    """a tab after the list marker: the content column is the next tab stop after the marker (1-4 columns of padding)"""
+    for indent, (m, tag, attr) in itertools.product(range(4), (('-', 'ul', ''), ('+', 'ul', ''), ('1.', 'ol', ''), ('10.', 'ol', ' start="10"'), ('7)', 'ol', ' start="7"'))):
+        end = indent + len(m)
+        col = (end // 4 + 1) * 4
+        first = ' ' * indent + m + '\tw'
+        yield ('list-tab', [first, '', ' ' * col + 'x'], '<%s%s>\n<li>\n<p>w</p>\n<p>x</p>\n</li>\n</%s>\n' % (tag, attr, tag),
+               dict(indent=indent, marker=m, shape='two paragraphs'), False)
+        yield ('list-tab', [first, ' ' * col + '- y'], '<%s%s>\n<li>w\n<ul>\n<li>y</li>\n</ul>\n</li>\n</%s>\n' % (tag, attr, tag),
+               dict(indent=indent, marker=m, shape='nested list'), False)
+        yield ('list-tab', [first, ' ' * col + 'x'], '<%s%s>\n<li>w\nx</li>\n</%s>\n' % (tag, attr, tag),
+               dict(indent=indent, marker=m, shape='continuation line'), False)
+
+
+# ------------------------------------------------------------------------------------------- lazy continuation lines (5.1, 5.2)
+def lazy_lines():
+    """paragraph continuation text without the container's marker / indentation. A lazy line indented four or more columns stays
+    paragraph text whatever it looks like; a lazy line can never be a setext underline"""
+    texts = [('x', 'x'), ('    # x', '# x'), ('    - x', '- x'), ('    1. x', '1. x'), ('    ***', '***'), ('    ```', '```'), ('     <b>', '<b>'),
+             ('    > x', '&gt; x'), ('    | a |', '| a |'), ('   x', 'x'), ('===', '==='), ('  =', '=')]
+    for raw, want in texts:
+        yield ('lazy', ['> w', raw], '<blockquote>\n<p>w\n%s</p>\n</blockquote>\n' % want, dict(container='quote', line=raw), False)
+        yield ('lazy', ['> > w', raw], '<blockquote>\n<blockquote>\n<p>w\n%s</p>\n</blockquote>\n</blockquote>\n' % want, dict(container='quote in quote', line=raw), False)
+        yield ('lazy', ['> - w', raw], '<blockquote>\n<ul>\n<li>w\n%s</li>\n</ul>\n</blockquote>\n' % want, dict(container='item in quote', line=raw), False)
+        if not raw.startswith('    ') or True:
+            # in a list item a line indented to the content column or beyond is an ordinary continuation line; fewer columns = lazy
+            if not raw.startswith('  '):
+                yield ('lazy', ['- w', raw], '<ul>\n<li>w\n%s</li>\n</ul>\n' % want, dict(container='item', line=raw), False)
+                yield ('lazy', ['10. w', ' ' + raw], '<ol start="10">\n<li>w\n%s</li>\n</ol>\n' % want, dict(container='ordered item', line=' ' + raw), False)
+
+
+FAMILIES = dict(list_tab=list_tabs, lazy=lazy_lines, fence=fences, atx=atx, setext=setext, indented=indented, html=html_blocks, table=tables, para=paragraphs, hr=breaks)
 CONTEXTS = ['alone', 'then-paragraph', 'after-paragraph', 'in-quote', 'in-list-item', 'then-paragraph-directly']
 
 
@@ -186,6 +218,8 @@ def in_context(case, ctx):
         return '\n'.join(lines + ['after']) + '\n', html + '<p>after</p>\n', 0
     if ctx == 'after-paragraph':
         return '\n'.join(['before', ''] + lines) + '\n', '<p>before</p>\n' + html, 2
+    if fam in ('list-tab', 'lazy') and ctx not in ('alone', 'after-paragraph'):
+        return None         # whole small documents of their own; placed at top level only
     if ctx == 'in-quote':
         if fam == 'setext' or has_tab or fam == 'indented-tab':
             return None
@@ -204,6 +238,21 @@ def in_context(case, ctx):
 
 def all_cases(fam):
     return list(FAMILIES[fam]())
+
+
+def lazy_line_reinterpreted(case):
+    """class predicate of the recorded finding KF-C03-lazy-line-reinterpreted: (a) a lazy line of a block quote that is
+    indented at least to the content column of a list item inside that quote and looks like a block start or a quote marker is
+    read by the item as its own indented continuation; (b) a lazy line after a list item's paragraph that looks like a setext
+    underline makes the paragraph a heading"""
+    fam, lines, html, label, _ = case
+    if fam != 'lazy':
+        return False
+    if label['container'] == 'item in quote' and label['line'].startswith('    ') and label['line'].strip() not in ('x', '<b>', '| a |'):
+        return True
+    if label['container'] in ('item', 'ordered item', 'item in quote') and set(label['line'].strip()) == {'='}:
+        return True
+    return False
 
 
 def delimiter_count_mismatch(case):
